@@ -1,0 +1,28 @@
+//go:build verif
+
+package icsim
+
+import (
+	"math/big"
+
+	"github.com/icon-project/goloop/module"
+)
+
+// Verification hooks for property C34 (add-only, build tag verif).
+
+func VerifC34PReps(env *Env) []module.Address   { return env.preps }
+func VerifC34Users(env *Env) []module.Address   { return env.users }
+func VerifC34Bonders(env *Env) []module.Address { return env.bonders }
+
+// VerifC34TotalDelegation returns the network total of delegation (to active P-Reps).
+func VerifC34TotalDelegation(s Simulator) *big.Int {
+	sim := s.(*simulatorImpl)
+	es := sim.getReadonlyExtensionState()
+	return es.State.GetTotalDelegation()
+}
+
+// VerifC34Treasury returns the treasury address of the simulated chain.
+func VerifC34Treasury(s Simulator) module.Address {
+	sim := s.(*simulatorImpl)
+	return sim.newReadonlyCallContext().Treasury()
+}
